@@ -253,6 +253,25 @@ mod int {
         }
     }
 
+    pub(crate) fn wrapping_div(dividend: VmInt, divisor: VmInt) -> RuntimeResult<VmInt, String> {
+        if divisor != 0 {
+            RuntimeResult::Return(dividend.wrapping_div(divisor))
+        } else {
+            RuntimeResult::Panic(format!("attempted to divide {} by 0", dividend))
+        }
+    }
+
+    pub(crate) fn overflowing_div(
+        dividend: VmInt,
+        divisor: VmInt,
+    ) -> RuntimeResult<(VmInt, bool), String> {
+        if divisor != 0 {
+            RuntimeResult::Return(dividend.overflowing_div(divisor))
+        } else {
+            RuntimeResult::Panic(format!("attempted to divide {} by 0", dividend))
+        }
+    }
+
     pub(crate) fn overflowing_rem(
         dividend: VmInt,
         divisor: VmInt,
@@ -676,7 +695,7 @@ pub fn load_int(vm: &Thread) -> Result<ExternModule> {
             wrapping_add => primitive!(2, std::int::prim::wrapping_add),
             wrapping_sub => primitive!(2, std::int::prim::wrapping_sub),
             wrapping_mul => primitive!(2, std::int::prim::wrapping_mul),
-            wrapping_div => primitive!(2, std::int::prim::wrapping_div),
+            wrapping_div => primitive!(2, "std::int::prim::wrapping_div", int::wrapping_div),
             wrapping_abs => primitive!(1, std::int::prim::wrapping_abs),
             wrapping_rem => primitive!(2, "std::int::prim::wrapping_rem", int::wrapping_rem),
             wrapping_rem_euclid => primitive!(2, "std::int::prim::wrapping_rem", int::wrapping_rem_euclid),
@@ -684,7 +703,7 @@ pub fn load_int(vm: &Thread) -> Result<ExternModule> {
             overflowing_add => primitive!(2, std::int::prim::overflowing_add),
             overflowing_sub => primitive!(2, std::int::prim::overflowing_sub),
             overflowing_mul => primitive!(2, std::int::prim::overflowing_mul),
-            overflowing_div => primitive!(2, std::int::prim::overflowing_div),
+            overflowing_div => primitive!(2, "std::int::prim::overflowing_div", int::overflowing_div),
             overflowing_abs => primitive!(1, std::int::prim::overflowing_abs),
             overflowing_rem => primitive!(2, "std::int::prim::overflowing_rem", int::overflowing_rem),
             overflowing_rem_euclid => primitive!(2, "std::int::prim::overflowing_rem_euclid", int::overflowing_rem_euclid),
